@@ -6,13 +6,14 @@
 // are inverse of each other, and the equality / hash-lookup matrix of the returned symbols.
 //
 // case INPUT:  route=R;c=C0,C1,..;pre=NAME:NUM,..;ops=<model ops>;act=<actions>
-//   c    counters of the members at the start of the history
-//   pre  the part of the real table the history can read: entries whose number is >= the
-//        smallest counter, whose name is a name used by the history or starts with one of its prefixes
-//   ops  M<i>:<name> G<i>:<prefix> D<i> C<i>   (what the Coq model runs)
-//   act  what was really done (replayable): M/G/D/C as above for the API route; script route:
-//        S<i>:<name> (str2sym) R<i>:<name> (quote name, read by the shared parser) g<i> (gensym)
-//        G<i>:<p> (gensym "p") m<i> (macro expanding to a fresh gensym) D<i> C<i>
+//
+//	c    counters of the members at the start of the history
+//	pre  the part of the real table the history can read: entries whose number is >= the
+//	     smallest counter, whose name is a name used by the history or starts with one of its prefixes
+//	ops  M<i>:<name> G<i>:<prefix> D<i> C<i>   (what the Coq model runs)
+//	act  what was really done (replayable): M/G/D/C as above for the API route; script route:
+//	     S<i>:<name> (str2sym) R<i>:<name> (quote name, read by the shared parser) g<i> (gensym)
+//	     G<i>:<p> (gensym "p") m<i> (macro expanding to a fresh gensym) D<i> C<i>
 package main
 
 import (
@@ -24,6 +25,8 @@ import (
 	"strconv"
 	"strings"
 	"sync"
+	"unicode"
+	"unicode/utf8"
 
 	"github.com/glycerine/zygomys/v9/zygo"
 	"verif/harness/lib"
@@ -161,7 +164,7 @@ func safe(f func() symres) (res symres) {
 
 // runHistory executes the actions on a fresh family and returns INPUT, IMPL, number of symbols.
 func runHistory(route string, prologue []action, acts []action) (string, string, bool) {
-	script := route == "script"
+	script := route == "script" // route "apix" = API route with the extended equality observables
 	fam := newFamily(script)
 	// prologue: family members that exist before the history starts
 	for _, a := range prologue {
@@ -304,6 +307,9 @@ func runHistory(route string, prologue []action, acts []action) (string, string,
 	eq, hash := equalities(fam, syms, script)
 	impl := strings.Join(outs, ",") + "|next=" + strings.Join(nexts, ",") + "|size=+" + strconv.Itoa(size1-size0) +
 		"|inv=" + inv + "|eq=" + eq + "|hash=" + hash
+	if route != "api" {
+		impl += extended(fam, syms, script)
+	}
 	var pro []string
 	for _, a := range prologue {
 		pro = append(pro, a.String())
@@ -311,6 +317,73 @@ func runHistory(route string, prologue []action, acts []action) (string, string,
 	input := "route=" + route + ";c=" + strings.Join(counters, ",") + ";pre=" + strings.Join(pre, ",") +
 		";ops=" + strings.Join(mops, ",") + ";act=" + strings.Join(astr, ",") + ";pro=" + strings.Join(pro, ",")
 	return input, impl, len(syms) >= 2
+}
+
+// extended equality observables (routes apix and script): for the pairs i<j of returned symbols,
+// (!= a b), equality of the one-element lists and of the one-element arrays holding them, all
+// decided by the interpreter's own comparison
+func extended(fam *family, syms []symres, script bool) string {
+	n := len(syms)
+	if n < 2 {
+		return "|ne=|leq=|aeq="
+	}
+	env := fam.envs[len(fam.envs)-1]
+	var ne, leq, aeq strings.Builder
+	bit := func(b *strings.Builder, c int, err error, wantZero bool) {
+		switch {
+		case err != nil:
+			b.WriteByte('E')
+		case (c == 0) == wantZero:
+			b.WriteByte('1')
+		default:
+			b.WriteByte('0')
+		}
+	}
+	if !script {
+		for i := 0; i < n; i++ {
+			for j := i + 1; j < n; j++ {
+				c, err := env.Compare(syms[j].sx, syms[i].sx) // the other operand order
+				bit(&ne, c, err, false)
+				c, err = env.Compare(zygo.MakeList([]zygo.Sexp{syms[i].sx}), zygo.MakeList([]zygo.Sexp{syms[j].sx}))
+				bit(&leq, c, err, true)
+				c, err = env.Compare(&zygo.SexpArray{Val: []zygo.Sexp{syms[i].sx}, Env: env}, &zygo.SexpArray{Val: []zygo.Sexp{syms[j].sx}, Env: env})
+				bit(&aeq, c, err, true)
+			}
+		}
+		return "|ne=" + ne.String() + "|leq=" + leq.String() + "|aeq=" + aeq.String()
+	}
+	// script route: the globals zs<i> were bound by equalities()
+	run := func(form string, b *strings.Builder) {
+		var src strings.Builder
+		src.WriteString("[")
+		for i := 0; i < n; i++ {
+			for j := i + 1; j < n; j++ {
+				fmt.Fprintf(&src, form+" ", i, j)
+			}
+		}
+		src.WriteString("]")
+		r := lib.Eval(env, src.String(), 4000000)
+		arr, ok := r.Val.(*zygo.SexpArray)
+		if r.Class != lib.OutValue || !ok {
+			b.WriteString("ERR")
+			return
+		}
+		for _, v := range arr.Val {
+			if bv, ok := v.(*zygo.SexpBool); ok {
+				if bv.Val {
+					b.WriteByte('1')
+				} else {
+					b.WriteByte('0')
+				}
+			} else {
+				b.WriteByte('E')
+			}
+		}
+	}
+	run("(!= zs%d zs%d)", &ne)
+	run("(== (list zs%d) (list zs%d))", &leq)
+	run("(== [zs%d] [zs%d])", &aeq)
+	return "|ne=" + ne.String() + "|leq=" + leq.String() + "|aeq=" + aeq.String()
 }
 
 // equalities of the returned symbols: pairs i<j equal?; hash keyed by the symbols in order, then looked up
@@ -436,6 +509,99 @@ func enumerate(depth, members, maxMembers int, pool, prefixes []string, cur []ac
 	}
 }
 
+// ---------- near-equal names ----------
+// groups of DIFFERENT names that a coarser relation than string identity would merge: letter case
+// (ASCII, Unicode simple folding incl. the Kelvin sign and the long s), leading/trailing characters,
+// prefixes, Unicode normalisation forms, numeric spellings, sigils and dots.
+var nearGroups = [][]string{
+	{"abc", "Abc", "ABC", "aBc"},
+	{"__gensym7", "__GENSYM7", "__Gensym7", "__gensym07"},
+	{"\u00e9", "\u00c9", "e\u0301", "E\u0301", "e"}, // é É e+combining acute
+	{"k", "K", "\u212a"},                            // Kelvin sign folds to k
+	{"s", "S", "\u017f"},                            // long s folds to s
+	{"\u00df", "\u1e9e", "ss", "SS"},                // sharp s
+	{"\u03c3", "\u03c2", "\u03a3"},                  // sigma, final sigma, capital sigma
+	{"\u0131", "i", "I", "\u0130"},                  // dotless / dotted i
+	{"straße", "STRASSE", "strasse"},
+	{"abc", "abc ", " abc", "abc\x00", "abc\t", "abc\n"},
+	{"abc", "ab", "abcd", "abd", "bbc"},
+	{"a", "a.", ".a", "a:", "#a", "?a", "a#"},
+	{"7", "07", "7.0", "+7", "7 "},
+	{"x-y", "x_y", "xy", "x--y"},
+	{"\uff41", "a", "\uff21", "A"}, // full-width a / A
+	{"\u2126", "\u03a9", "\u03c9"}, // Ohm sign, Omega, omega
+	{"", " ", "\x00"},
+	{"nan", "NaN", "NAN", "Nan"},
+	{"car", "Car", "CAR", "car "},
+}
+
+func swapCase(s string) string {
+	rs := []rune(s)
+	for i, r := range rs {
+		if unicode.IsUpper(r) {
+			rs[i] = unicode.ToLower(r)
+		} else if unicode.IsLower(r) {
+			rs[i] = unicode.ToUpper(r)
+		}
+	}
+	return string(rs)
+}
+
+// mutate returns a name that is close to, but (almost always) different from, nm
+func mutate(nm string, r *lib.Rng, scriptSafe bool) string {
+	k := r.Intn(10)
+	if scriptSafe && k >= 4 {
+		k = r.Intn(4)
+	}
+	switch k {
+	case 0:
+		return strings.ToUpper(nm)
+	case 1:
+		return swapCase(nm)
+	case 2:
+		rs := []rune(nm)
+		if len(rs) > 0 {
+			i := r.Intn(len(rs))
+			rs[i] = []rune(swapCase(string(rs[i])))[0]
+		}
+		return string(rs)
+	case 3:
+		return strings.ToLower(nm)
+	case 4:
+		return nm + " "
+	case 5:
+		return " " + nm
+	case 6:
+		return nm + "\x00"
+	case 7:
+		if len(nm) > 1 {
+			return nm[:len(nm)-1]
+		}
+		return nm + nm
+	case 8:
+		return strings.Replace(nm, "e", "e\u0301", 1)
+	}
+	return strings.NewReplacer("k", "\u212a", "s", "\u017f", "K", "\u212a", "S", "\u017f").Replace(nm)
+}
+
+func lexableSymbol(nm string) bool {
+	switch nm {
+	case "", "nan", "NaN", "inf", "Inf", "true", "false", "nil", "null":
+		return false // the reader turns these atoms into numbers / booleans / the null value, not symbols
+	}
+	for i := 0; i < len(nm); i++ {
+		c := nm[i]
+		if !((c >= '0' && c <= '9' && i > 0) || (c >= 'A' && c <= 'Z') || (c >= 'a' && c <= 'z') || c == '_') {
+			return false
+		}
+	}
+	return true
+}
+
+func strLiteralSafe(nm string) bool {
+	return !strings.ContainsAny(nm, "\"\\\n\r\x00\t") && utf8.ValidString(nm)
+}
+
 func main() {
 	a := lib.ParseArgs()
 	out := lib.NewOut(a.Out)
@@ -466,14 +632,14 @@ func main() {
 			}()
 		}
 		for _, t := range pending {
-			if t.route == "api" {
+			if t.route != "script" {
 				ch <- t
 			}
 		}
 		close(ch)
 		wg.Wait()
 		for _, t := range pending {
-			if t.route != "api" {
+			if t.route == "script" {
 				t.input, t.impl, t.nontriv = runHistory(t.route, t.pro, t.acts)
 			}
 			out.Case(t.input, t.impl, t.nontriv, t.tags...)
@@ -567,6 +733,50 @@ func main() {
 	out.Extra["exhaustive_lagging_depth"] = depth - 1
 	out.Extra["exhaustive_lagging_histories"] = cnt
 
+	// near-equal names (case variants, leading/trailing characters, case variants of generated names):
+	// every history of a few actions over a ready 3-member family, extended equality observables
+	proN := []action{{'D', 0, ""}, {'C', 0, ""}}
+	poolN := []string{"abc", "Abc", "abc ", shaped("g", 0), shaped("G", 0)}
+	dn := 3
+	if a.Tier == "thorough" {
+		dn = 4
+	}
+	cnt = 0
+	enumerate(dn, 3, 3, poolN, []string{"g", "G"}, nil, func(acts []action) {
+		cnt++
+		emitCase("apix", proN, acts, "exhaustive:near")
+	})
+	out.Extra["exhaustive_near_depth"] = dn
+	out.Extra["exhaustive_near_histories"] = cnt
+	// battery: every group of near-equal names interned across the three members, twice, by the
+	// Go API and at script level (str2sym / quoted read where the name allows it)
+	for gi, g := range nearGroups {
+		var api, scr []action
+		for rep := 0; rep < 2; rep++ {
+			for j, nm := range g {
+				m := (j + rep + gi) % 3
+				api = append(api, action{'M', m, nm})
+				kind := byte('M')
+				switch {
+				case lexableSymbol(nm) && (j+rep)%2 == 0:
+					kind = 'R'
+				case strLiteralSafe(nm):
+					kind = 'S'
+				}
+				scr = append(scr, action{kind, m, nm})
+			}
+		}
+		emitCase("apix", proN, api, "near-battery:api")
+		emitCase("script", nil, append([]action{{'D', 0, ""}, {'C', 0, ""}}, scr...), "near-battery:script")
+	}
+	// generated names against pre-interned case variants, at script level
+	for _, p := range []string{"g", "G", "__gensym", "__GENSYM"} {
+		q := swapCase(p)
+		acts := []action{{'D', 0, ""}, {'S', 1, q + strconv.Itoa(scriptN0)}, {'S', 0, p + strconv.Itoa(scriptN0+2)},
+			{'G', 0, p}, {'G', 1, q}, {'G', 1, p}, {'m', 0, ""}, {'G', 0, q}}
+		emitCase("script", nil, acts, "near-battery:gensym")
+	}
+
 	// random long histories, API route
 	rng := lib.NewRng(a.Seed)
 	nrand, nscript := 6000, 500
@@ -574,7 +784,7 @@ func main() {
 		nrand, nscript = 200000, 8000
 	}
 	plain := []string{"a", "b", "c", "x1", "g", "__gensym", "#sig", "?q", "a.b", "12", "g-1", "", "g007"}
-	prefs := []string{"g", "__gensym", "a", "", "g0", "x"}
+	prefs := []string{"g", "__gensym", "a", "", "g0", "x", "G", "__GENSYM", "A"}
 	randHistory := func(r *lib.Rng, script bool) []action {
 		n := 4 + r.Intn(28)
 		if script {
@@ -594,7 +804,21 @@ func main() {
 				if script && p == "a" {
 					p = "g"
 				}
+				if r.Intn(3) == 0 {
+					p = strings.ToUpper(p) // a case variant of a generated-looking name
+				}
 				return p + strconv.Itoa(cur+r.Intn(8)-2)
+			}
+			// how a name can be interned at script level: quoted read needs a lexable symbol,
+			// str2sym a string literal; anything else goes through the Go API of that member
+			scriptKind := func(nm string) byte {
+				switch {
+				case lexableSymbol(nm) && r.Intn(2) == 0:
+					return 'R'
+				case strLiteralSafe(nm):
+					return 'S'
+				}
+				return 'M'
 			}
 			switch c := r.Intn(20); {
 			case c < 2 && members < 6:
@@ -603,11 +827,16 @@ func main() {
 				modelMembers++
 			case c < 8:
 				kind := byte('M')
-				if script {
-					kind = "SR"[r.Intn(2)]
-				}
 				var nm string
-				if len(used) > 0 && r.Intn(4) == 0 {
+				if c := r.Intn(10); c < 3 {
+					// a near-equal but different name: a variant of a name of this history, or a member of a group
+					if len(used) > 0 && r.Intn(2) == 0 {
+						nm = mutate(used[r.Intn(len(used))], r, false)
+					} else {
+						g := nearGroups[r.Intn(len(nearGroups))]
+						nm = g[r.Intn(len(g))]
+					}
+				} else if len(used) > 0 && c < 5 {
 					nm = used[r.Intn(len(used))]
 				} else if r.Intn(2) == 0 {
 					nm = shapedName()
@@ -615,6 +844,9 @@ func main() {
 					nm = []string{"a", "b", "c", "x1", "g", "__gensym", "g007", "car", "gensym"}[r.Intn(9)]
 				} else {
 					nm = plain[r.Intn(len(plain))]
+				}
+				if script {
+					kind = scriptKind(nm)
 				}
 				acts = append(acts, action{kind, i, nm})
 				used = append(used, nm)
@@ -629,7 +861,7 @@ func main() {
 			default:
 				p := prefs[r.Intn(len(prefs))]
 				if script {
-					p = []string{"g", "__gensym", "a", "g0"}[r.Intn(4)]
+					p = []string{"g", "__gensym", "a", "g0", "G", "__GENSYM"}[r.Intn(6)]
 				}
 				acts = append(acts, action{'G', i, p})
 				cur++
@@ -638,7 +870,7 @@ func main() {
 		return acts
 	}
 	for k := 0; k < nrand; k++ {
-		emitCase("api", nil, randHistory(rng.Fork(), false), "random:api")
+		emitCase("apix", nil, randHistory(rng.Fork(), false), "random:api")
 	}
 	for k := 0; k < nscript; k++ {
 		emitCase("script", nil, randHistory(rng.Fork(), true), "random:script")
@@ -664,7 +896,13 @@ func main() {
 			r := rng.Fork()
 			acts := []action{{'D', 0, ""}, {'C', 0, ""}}
 			for j := 0; j < 36; j++ {
-				acts = append(acts, action{'M', r.Intn(3), all[r.Intn(len(all))]})
+				nm := all[r.Intn(len(all))]
+				acts = append(acts, action{'M', r.Intn(3), nm})
+				if r.Intn(3) == 0 {
+					// a near-equal variant of an existing symbol (may or may not exist itself: NaN / nan)
+					acts = append(acts, action{'M', r.Intn(3), mutate(nm, r, false)})
+					j++
+				}
 			}
 			emitCase("script", nil, acts, "table-sample")
 		}
